@@ -20,5 +20,6 @@ Definition known_keeper_fields : list string :=
 Lemma scan_clean :
   go_nondeterministic_imports = [] /\ go_goroutines_and_selects = [] /\ go_ranges_over_maps = [] /\ go_package_var_writes = [] /\
   forallb (fun v => mem_str v known_readonly_vars) go_package_vars = true /\
-  forallb (fun v => mem_str v known_keeper_fields) go_keeper_reference_fields = true.
+  forallb (fun v => mem_str v known_keeper_fields) go_keeper_reference_fields = true /\
+  go_context_liveness_uses = [].
 Proof. vm_compute. repeat split; reflexivity. Qed.
